@@ -193,6 +193,42 @@ def table():
     t["TryUnwrap"] = [T(et), T("@[try_unwrap(ref, ref_mut)] " + et), T("enum {S}{G}{W} {{ {V}({C}), @[try_unwrap(ignore)] B {{ x: u8 }}, Cc }}")]
     t["TryFrom"] = [T("@[try_from(repr)] enum {S}{G}{W} {{ {V}, B({C}), Cc }}"), T("@[try_from(repr)] #[repr(u8)] enum {S}{G}{W} {{ {V} = 1, B({C}) = 5, Cc }}"),
                     T("@[try_from(repr)] #[repr(i16)] enum {S} {{ {V} = -1, Bb }}", gens=["none"])]
+    # type parameters used directly as field types (bounds must be inferred / added by the derive itself)
+    N = ["none"]
+    for d in ADD:
+        t[d] += [T("struct {S}<T>(T, T);", gens=N), T("struct {S}<T, U> {{ {F}: T, other: U }}", gens=N), T("enum {S}<T> {{ {V}(T), B {{ {F}: T }}, Cc }}", gens=N)]
+    for d in ADDA:
+        t[d] += [T("struct {S}<T>(T, T);", gens=N), T("struct {S}<T, U> {{ {F}: T, other: U }}", gens=N)]
+    for d in MUL:
+        t[d] += [T("struct {S}<T>(T);", gens=N), T("struct {S}<T, U>(T, U);", gens=N), T("struct {S}<T> {{ {F}: T, other: T }}", gens=N),
+                 T("@[%s(forward)] struct {S}<T>(T, T);" % SNAKE[d], gens=N)]
+    for d in MULA:
+        t[d] += [T("struct {S}<T>(T);", gens=N), T("struct {S}<T, U>(T, U);", gens=N)]
+    for d in ("Not", "Neg"):
+        t[d] += [T("struct {S}<T>(T, T);", gens=N), T("enum {S}<T> {{ {V}(T), B {{ {F}: T }} }}", gens=N), T("enum {S}<T> {{ {V}(T), Cc }}", gens=N)]
+    t["Sum"] += [T("#[derive(derive_more::Add)] struct {S}<T>(T, T);", gens=N)]
+    t["Product"] += [T("#[derive(derive_more::Mul)] @[mul(forward)] struct {S}<T>(T, T);", gens=N)]
+    t["Constructor"] += [T("struct {S}<'a, T: ?Sized, const N: usize>(&'a T, [u8; N]);", gens=N), T("struct {S}<T> {{ {F}: T, other: Vec<T> }}", gens=N)]
+    t["From"] += [T("struct {S}<T>(T);", gens=N), T("struct {S}<T, U>(T, U);", gens=N), T("enum {S}<T> {{ {V}(T), Cc }}", gens=N)]
+    # (Into with a bare type parameter as the target violates the orphan rule; Vec<T> etc. are fine)
+    t["Into"] += [T("struct {S}<T>(Vec<T>);", gens=N), T("@[into(owned, ref, ref_mut)] struct {S}<T, U>(Vec<T>, Option<U>);", gens=N)]
+    t["Deref"] += [T("struct {S}<T>(T);", gens=N), T("@[deref(forward)] struct {S}<T>(Box<T>);", gens=N), T("struct {S}<'a, T: ?Sized>(&'a T);", gens=N)]
+    t["DerefMut"] += [T("#[derive(derive_more::Deref)] struct {S}<T>(T);", gens=N), T("#[derive(derive_more::Deref)] @[deref(forward)] @[deref_mut(forward)] struct {S}<T>(Box<T>);", gens=N)]
+    for d, a in (("AsRef", "as_ref"), ("AsMut", "as_mut")):
+        t[d] += [T("struct {S}<T>(T);", gens=N), T("@[%s(T)] struct {S}<T>(T);" % a, gens=N), T("@[%s(forward)] struct {S}<T>(T);" % a, gens=N),
+                 T("@[%s([T])] struct {S}<T>(Vec<T>);" % a, gens=N)]
+    t["Index"] += [T("struct {S}<T>(Vec<T>);", gens=N), T("struct {S}<K: ::core::hash::Hash + Eq, V> {{ {F}: ::std::collections::HashMap<K, V>, @[index(ignore)] other: u8 }}", gens=N)]
+    t["IndexMut"] += [T("#[derive(derive_more::Index)] struct {S}<T>(Vec<T>);", gens=N)]
+    t["IntoIterator"] += [T("@[into_iterator(owned, ref, ref_mut)] struct {S}<T>(Vec<T>);", gens=N), T("struct {S}<T: IntoIterator>(T);", gens=N)]
+    t["FromStr"] += [T("struct {S}<T>(T);", gens=N), T("struct {S}<T> {{ {F}: T }}", gens=N)]
+    for d, a in FMT.items():
+        t[d] += [T("struct {S}<T>(T);", gens=N), T("@[%s(\"{{_0}} {{_1:?}}\")] struct {S}<T, U>(T, U);" % a, gens=N),
+                 T("enum {S}<'a, T, U: ?Sized> {{ {V}(T), @[%s(\"{{_0}}\")] B(&'a U), @[%s(\"c\")] Cc }}" % (a, a), gens=N)]
+    t["Debug"] += [T("struct {S}<T>(T);", gens=N), T("struct {S}<'a, T, U: ?Sized> {{ {F}: Vec<T>, @[debug(skip)] other: &'a U }}", gens=N),
+                   T("enum {S}<T, U> {{ {V}(T), B {{ {F}: U }}, Cc }}", gens=N)]
+    for d in ("IsVariant", "Unwrap", "TryUnwrap"):
+        t[d] += [T("enum {S}<T, U> {{ {V}(T), B(T, U), Cc }}", gens=N), T("enum {S}<'a, T: ?Sized> {{ {V}(&'a T), Cc }}", gens=N)]
+    t["TryFrom"] += [T("@[try_from(repr)] enum {S}<T> {{ {V}, B(T), Cc }}", gens=N)]
     t["TryInto"] = [T("enum {S}{G}{W} {{ {V}({C}), B {{ {F}: u8, y: u16 }}, Cc }}"), T("@[try_into(owned, ref, ref_mut)] enum {S}{G}{W} {{ {V}({C}), B(u8, @[try_into(ignore)] u16), @[try_into(ignore)] Cc }}")]
     return t
 
